@@ -581,6 +581,22 @@ def copy_propagate(fn, modsum, stats):
                         st.append(s_)
                 dirty_cache[k] = dirty
             return dirty_cache[k]
+        # the try blocks a node stands in: an expression that can raise is not moved across the boundary of one
+        try_ctx = {}
+
+        def mark(n, ctxt):
+            try_ctx[id(n)] = ctxt
+            if isinstance(n, ast.Try):
+                for fld in ('body', 'handlers', 'orelse', 'finalbody'):
+                    for c in getattr(n, fld):
+                        mark(c, ctxt + ((id(n), fld),))
+            else:
+                for c in ast.iter_child_nodes(n):
+                    mark(c, ctxt)
+        mark(fn, ())
+
+        def may_raise(e):
+            return any(isinstance(y, (ast.Call, ast.Subscript, ast.BinOp, ast.Attribute)) for y in ast.walk(e))
         allowed = {}
         for x in ast.walk(fn):
             if not (isinstance(x, ast.Name) and isinstance(x.ctx, ast.Load)) or x.id in bad:
@@ -599,6 +615,8 @@ def copy_propagate(fn, modsum, stats):
             if u is d:
                 continue
             if u.id in dirty_of(d, rhs):
+                continue
+            if may_raise(rhs) and try_ctx.get(id(x), ()) != try_ctx.get(id(d.ast) if d.ast is not None else None, try_ctx.get(id(x), ())):
                 continue
             allowed[id(x)] = rhs
         if not allowed:
